@@ -58,11 +58,13 @@ TYPE_BY_NAME = {"int": int, "str": str, "float": float, "list": list,
 VALUES = [1, 0, -3, 2.5, 0.0, "s", "", True, False, [1], [], {"k": 1}, {}, (1,)]
 
 
-def gen_ops(rng, n, n_types, n_list, depth):
+def gen_ops(rng, n, n_types, n_list, depth, two=False):
     ops = []
     for _ in range(n):
         r = rng.random()
         t = rng.randrange(n_types)
+        if two and rng.random() < 0.4:
+            t += 100          # the same event type on the second producer
         l = rng.randrange(n_list)
         if r < 0.28:
             ops.append(["add", t, l])
@@ -129,13 +131,17 @@ def generate(seed, tier, idx=0):
     if rng.random() < 0.02:
         n_list = rng.choice([9, 17, 40])       # occasional crowds of listeners
     scripts = {}
+    # two producers that publish the same (static) event types; listeners may be
+    # subscribed to both and fire on one from inside a notification of the other
+    two = rng.random() < 0.3
     for l in range(n_list):
         if rng.random() < 0.6:
             for _ in range(rng.randint(1, 3)):
-                key = "%d:%d:%d" % (l, rng.randrange(n_types), rng.randint(1, 3))
-                scripts[key] = gen_ops(rng, rng.randint(1, 3), n_types, n_list, 1)
+                key = "%d:%d:%d" % (l, rng.randrange(n_types) + (100 if two and rng.random() < 0.4 else 0),
+                                    rng.randint(1, 3))
+                scripts[key] = gen_ops(rng, rng.randint(1, 3), n_types, n_list, 1, two)
     ops = gen_ops(rng, rng.choice([3, 5, 8, 12, 20, 30, 40]) if rng.random() > 0.01
-                  else rng.choice([150, 400]), n_types, n_list, 0)
+                  else rng.choice([150, 400]), n_types, n_list, 0, two)
     case = {"kind": "history", "n_types": n_types, "n_listeners": n_list,
             "ops": ops, "scripts": scripts}
     if rng.random() < 0.3:
@@ -198,7 +204,9 @@ class World:
 
     def __init__(self, case):
         self.case = case
-        self.p = EventProducer()
+        self.ps = [EventProducer(), EventProducer()]
+        self.p = self.ps[0]
+        self.firing = []          # producer index of the fires in progress (innermost last)
         self.types = PLAIN[:case["n_types"]]
         kinds = case.get("listener_kinds") or ["plain"] * case["n_listeners"]
         self.listeners = [LISTENER_KINDS[kinds[i]](i, self) for i in range(case["n_listeners"])]
@@ -211,7 +219,7 @@ class World:
         self.nested = 0
 
     def delivered(self, listener, event):
-        t = self.types.index(event.event_type)
+        t = self.types.index(event.event_type) + 100 * (self.firing[-1] if self.firing else 0)
         ts = event.timestamp if isinstance(event, TimedEvent) else None
         self.log.append((listener.idx, t, event.content, ts))
         k = self.counts.get((listener.idx, t), 0) + 1
@@ -225,7 +233,26 @@ class World:
             self.depth -= 1
 
     def apply(self, op):
-        p = self.p
+        name = op[0]
+        tix = op[2] if name == "remove_all" else (op[1] if name in ("add", "remove", "fire",
+                                                                    "fire_timed") else 0)
+        pi = 1 if isinstance(tix, int) and tix >= 100 else 0
+        p = self.ps[pi]
+        if name in ("add", "remove", "fire", "fire_timed"):
+            op = [op[0], op[1] % 100] + list(op[2:])
+        elif name == "remove_all":
+            op = [op[0], op[1], op[2] % 100, op[3]]
+        if name in ("fire", "fire_timed"):
+            if self.depth >= 3:
+                return
+            self.firing.append(pi)
+            try:
+                return self._apply(p, op)
+            finally:
+                self.firing.pop()
+        return self._apply(p, op)
+
+    def _apply(self, p, op):
         name = op[0]
         if name == "add":
             p.add_listener(self.types[op[1]], self.listeners[op[2]])
@@ -324,14 +351,16 @@ class RefWorld:
                 lst.remove(op[2])
         elif name == "remove_all":
             form, t, l = op[1], op[2], op[3]
+            same = [k for k in self.subs if (k >= 100) == (t >= 100)]   # that producer's types
             if form == "all":
-                self.subs = {}
+                for k in same:
+                    self.subs.pop(k)
             elif form == "type":
                 self.subs.pop(t, None)
             elif form == "listener":
-                for lst in self.subs.values():
-                    if l in lst:
-                        lst.remove(l)
+                for k in same:
+                    if l in self.subs[k]:
+                        self.subs[k].remove(l)
             else:
                 lst = self.subs.get(t, [])
                 if l in lst:
@@ -345,7 +374,7 @@ class RefWorld:
                 return
             self.fire(op[1], op[2])
         elif name == "has":
-            self.log.append(("has", any(self.subs.get(t) for t in self.subs)))
+            self.log.append(("has", any(self.subs.get(t) for t in self.subs if t < 100)))
         elif name == "bad":
             self.log.append(("bad", op[1], "EventError"))
 
@@ -419,8 +448,9 @@ def execute(case):
                          "reference at entry %d: producer %s, reference %s"
                          % (i, op, j, w.log[j:j + 3], ref.log[j:j + 3]))
                     break
-                has = w.p.has_listeners()
-                exp = any(ref.subs.get(t) for t in ref.subs)
+                has = (w.ps[0].has_listeners(), w.ps[1].has_listeners())
+                exp = (any(ref.subs.get(t) for t in ref.subs if t < 100),
+                       any(ref.subs.get(t) for t in ref.subs if t >= 100))
                 if has != exp:
                     f = ("has-listeners", "after op #%d %s has_listeners() == %r, "
                          "reference %r" % (i, op, has, exp))
